@@ -64,6 +64,8 @@ def run(ck):
                  "between nearest experiments (excluded by the property)")
     f = repo.find_function("Membrane.get_permeance")
     ck.analysed_function(f)
+    from ..purity import purity
+    purity(ck, repo, [f] + [repo.find_function("Membrane." + n) for n in ("calculate_activation_energy", "get_ideal_selectivity", "get_estimated_pure_component_flux", "get_penetrant_data")])
     base = make_config({}, extra_inline=INL)
     o0 = mk_oracle(repo, f, base, {})
     E = o0.env["E"]
